@@ -14,6 +14,10 @@ package certgen
 
 // ---- C03: validity window of SSH certificates -------------------------------------------------------
 //@ func GenSSHCertFileString
+//@   requires strongKey(sshCryptoKey(sshParse(userPubKey)))                                               #C10.ssh-strong @C10
+//@   ensures err == nil ==> cert.Key == sshParse(userPubKey)                                               #C02.ssh-key @C02
+//@   ensures err == nil ==> len(cert.ValidPrincipals) == 1 && cert.ValidPrincipals[0] == username           #C02.ssh-principal @C02
+//@   ensures err == nil ==> cert.CertType == ssh.UserCert                                                 #C02.ssh-usercert @C02
 //@   ensures err == nil ==> ule(cert.ValidAfter, cert.ValidBefore)                                       #C03.ssh-no-wrap @C03
 //@   ensures err == nil && duration >= 0 ==> ule(cert.ValidBefore - cert.ValidAfter, uint64(duration / time.Second) + 1)  #C03.ssh-window @C03 %90
 //@   ensures err == nil && duration < 0 ==> cert.ValidBefore == cert.ValidAfter                          #C03.ssh-negative @C03
@@ -26,3 +30,7 @@ package certgen
 //@   ensures ret0 ==> strongKey(pub)        #C10.strong @C10
 //@   ensures strongKey(pub) ==> ret0        #C10.served @C10
 //@   modifies nothing
+
+// exported helper that signs the key SSSD has on file; no keymasterd route (and nothing outside the tests) calls it
+//@ func GenSSHCertFileStringFromSSSDPublicKey
+//@   atcall GenSSHCertFileString overrides C10.ssh-strong (username2 string, userPubKey2 string, signer2 ssh.Signer, host_identity2 string, duration2 time.Duration, customExtensions2 map[string]string) :: true #C10.exempt-sssd-helper-not-reachable-from-any-route @C10
